@@ -53,13 +53,15 @@ type Op struct {
 }
 
 type Config struct {
-	Batch, Cache, ICache int
-	U                    int // universe: chain heights 1..U
-	NH                   int // registered OnDelete handlers
-	ProbeEvery           bool
-	Ranges               int // random GetRange probes per probe
-	Crash                int // number of write-log prefixes to reopen (0 = none, <0 = all)
-	FailHdrFrom, FailHdrN int // transient failures of flush commits (FailHdrN = 0: none)
+	Batch, Cache, ICache  int
+	U                     int  // universe: chain heights 1..U
+	NH                    int  // registered OnDelete handlers
+	Par                   bool // every DeleteRange of >= 2 headers takes the parallel path (only with NH == 0: same outcome as the sequential path)
+	DuringPct             int  // percent of accepted deletions during which handler 0 appends (and syncs) stored headers outside the range
+	ProbeEvery            bool
+	Ranges                int  // random GetRange probes per probe
+	Crash                 int  // number of write-log prefixes to reopen (0 = none, <0 = all)
+	FailHdrFrom, FailHdrN int  // transient failures of flush commits (FailHdrN = 0: none)
 	CtxDS                 bool // context-aware datastore flavour: write batches and read transactions via the context
 }
 
@@ -67,20 +69,21 @@ type Config struct {
 type Gen func(step int, tail, head uint64) (Op, bool)
 
 type Result struct {
-	Term      string
-	Descr     map[string]any
-	Ops       int
-	Deletes   int
-	DelOK     int
-	Restarts  int
-	Gapped    bool
-	NonTriv   bool
-	HandlerCalls int
-	CrashTerm string // Coq [ccase] term (when cfg.Crash != 0)
-	LogLen    int
-	CrashPts  int
-	Rushed    int // appends immediately followed by the next operation
-	SyncProbes int // probes taken right after Sync returned, without waiting for quiescence
+	Term           string
+	Descr          map[string]any
+	Ops            int
+	Deletes        int
+	DelOK          int
+	Restarts       int
+	During         int // deletions with an append + flush in the middle
+	Gapped         bool
+	NonTriv        bool
+	HandlerCalls   int
+	CrashTerm      string // Coq [ccase] term (when cfg.Crash != 0)
+	LogLen         int
+	CrashPts       int
+	Rushed         int // appends immediately followed by the next operation
+	SyncProbes     int // probes taken right after Sync returned, without waiting for quiescence
 	CommitFailures int
 }
 
@@ -94,8 +97,13 @@ type runner struct {
 	reg   *vhdr.Registry
 	rng   *emit.Rand
 	fails []Fail
-	log   []string
-	logMu *sync.Mutex // set when handlers may run concurrently (parallel deletion)
+	// during a deletion: headers outside the range that handler 0 appends again and syncs at its first call
+	// (a flush of the write batch in the middle of DeleteRange); duringDone / duringErr report what happened
+	during     []uint64
+	duringDone bool
+	duringErr  bool
+	log        []string
+	logMu      *sync.Mutex // set when handlers may run concurrently (parallel deletion)
 }
 
 func (r *runner) newStore() {
@@ -116,8 +124,25 @@ func (r *runner) newStore() {
 			}
 			r.log = append(r.log, fmt.Sprintf("HObs %d%%nat %d %s", k, height, emit.B(readable)))
 			fails := r.fails
+			var during []uint64
+			if k == 0 && !r.duringDone && len(r.during) > 0 {
+				during, r.duringDone = r.during, true
+			}
 			if r.logMu != nil {
 				r.logMu.Unlock()
+			}
+			if len(during) > 0 {
+				hs := make([]*vhdr.Header, len(during))
+				for j, n := range during {
+					hs[j] = r.chain[n-1]
+				}
+				// not the handler's context: that one may carry DeleteRange's write batch
+				if err := s.Append(context.Background(), hs...); err != nil {
+					r.duringErr = true
+				}
+				if err := s.Sync(context.Background()); err != nil {
+					r.duringErr = true
+				}
 			}
 			for _, f := range fails {
 				if f.Handler == k && f.Height == height {
@@ -265,6 +290,10 @@ func Run(t *testing.T, rng *emit.Rand, cfg Config, maxOps int, gen Gen) Result {
 	var out Result
 	synctest.Test(t, func(t *testing.T) {
 		r := &runner{t: t, cfg: cfg, rng: rng, reg: vhdr.NewRegistry()}
+		if cfg.Par && cfg.NH == 0 {
+			old := store.VerifSetDeleteRangeParallelThreshold(2)
+			defer store.VerifSetDeleteRangeParallelThreshold(old)
+		}
 		r.rec = NewRecDS()
 		if cfg.FailHdrN > 0 {
 			r.rec.FailHdrFrom, r.rec.FailHdrN = cfg.FailHdrFrom, cfg.FailHdrN
@@ -294,6 +323,7 @@ func Run(t *testing.T, rng *emit.Rand, cfg Config, maxOps int, gen Gen) Result {
 		var steps []string
 		var descr []string
 		var loglens []string
+		forceRestart := false
 		for i := 0; i < maxOps; i++ {
 			var tl, hd uint64
 			if h, err := r.s.Head(ctx); err == nil {
@@ -306,6 +336,10 @@ func Run(t *testing.T, rng *emit.Rand, cfg Config, maxOps int, gen Gen) Result {
 			if !ok {
 				break
 			}
+			if forceRestart {
+				op, forceRestart = Op{Kind: Restart}, false
+			}
+			var extra []uint64
 			out.Ops++
 			r.log = nil
 			outc := "OOk"
@@ -345,6 +379,20 @@ func Run(t *testing.T, rng *emit.Rand, cfg Config, maxOps int, gen Gen) Result {
 					}
 					opTerm = fmt.Sprintf("IDelete %d %d %d%%nat %s", op.From, op.To, cfg.NH, emit.List(fs))
 					r.fails = op.Fails
+					r.during, r.duringDone, r.duringErr = nil, false, false
+					if cfg.NH > 0 && tl > 0 && op.From < op.To && r.rng.Chance(cfg.DuringPct) {
+						var cand []uint64
+						for n := tl; n <= hd; n++ {
+							if n < op.From || n >= op.To {
+								cand = append(cand, n)
+							}
+						}
+						if len(cand) > 0 {
+							k := 1 + r.rng.Intn(min(3, len(cand)))
+							at := r.rng.Intn(len(cand) - k + 1)
+							r.during = cand[at : at+k]
+						}
+					}
 					c2, cancel := context.WithTimeout(ctx, time.Hour)
 					err := r.s.DeleteRange(c2, op.From, op.To)
 					cancel()
@@ -353,6 +401,14 @@ func Run(t *testing.T, rng *emit.Rand, cfg Config, maxOps int, gen Gen) Result {
 					} else {
 						out.DelOK++
 					}
+					if r.duringDone {
+						// for the model the append comes after the deletion: the headers are stored and outside
+						// the range, so the order makes no difference to any observation
+						extra = r.during
+						forceRestart = r.rng.Bool()
+						out.During++
+					}
+					r.during = nil
 				case Restart, Reopen, StopSync:
 					out.Restarts++
 					opTerm = "IRestart"
@@ -428,6 +484,19 @@ func Run(t *testing.T, rng *emit.Rand, cfg Config, maxOps int, gen Gen) Result {
 			steps = append(steps, fmt.Sprintf("SStep (%s) %s %s %s", opTerm, outc, emit.List(r.log), probe))
 			loglens = append(loglens, emit.Nat(len(r.rec.Log)))
 			descr = append(descr, opTerm+" => "+outc)
+			if len(extra) > 0 {
+				ns := make([]string, len(extra))
+				for j, n := range extra {
+					ns[j] = emit.N(n)
+				}
+				eo := "OOk"
+				if r.duringErr {
+					eo = "OFail"
+				}
+				steps = append(steps, fmt.Sprintf("SStep (IAppend %s) %s [] None", emit.List(ns), eo))
+				loglens = append(loglens, emit.Nat(len(r.rec.Log)))
+				descr = append(descr, "IAppend "+emit.List(ns)+" (by handler 0 during the deletion above, then Sync) => "+eo)
+			}
 		}
 		// final step: a real restart with a probe; then the raw datastore is dumped while the
 		// store is running (the model's datastore after the same IRestart step must equal it)
